@@ -396,11 +396,49 @@ pub struct Outcome {
     pub trace: Option<Vec<u8>>,
 }
 
+/// History digest of a scenario that the wall-clock backstop cut short: what it explored depends
+/// on timing, so its digest is not comparable between executions (process configuration and
+/// selfcheck skip it).
+pub const CUT_DIGEST: u64 = 0xc07_5407_c07_5407;
+
+fn digest_of(d: &Digest, stats: &Stats) -> u64 {
+    if stats.get("heavy_scenarios_cut_short") > 0 {
+        CUT_DIGEST
+    } else {
+        d.finish()
+    }
+}
+
+/// Rules that are known to be expensive to build whatever their length (large counted Unicode
+/// classes: the regex size limit strata) or very long. A pure function of the text: scenarios
+/// over such rules explore fewer optimiser switch sets and hash seeds, deterministically.
+pub fn heavy_rule(text: &str) -> bool {
+    text.contains("\\pL{") || text.len() > 60_000
+}
+
+/// The (switch sets, hash seeds) a scenario explores for its rule.
+pub fn plan(sc: &Scenario) -> (Vec<u8>, Vec<u64>) {
+    if heavy_rule(&sc.rule_text) {
+        // everything, shake alone, rewrite alone and the unoptimised rule when the scenario has them
+        let mut sws: Vec<u8> = sc.switch_sets.iter().copied().filter(|s| [15u8, 2, 4, 0].contains(s)).collect();
+        if sws.is_empty() {
+            sws = sc.switch_sets.iter().copied().take(2).collect();
+        }
+        (sws, sc.hash_seeds.iter().copied().take(2).collect())
+    } else {
+        (sc.switch_sets.clone(), sc.hash_seeds.clone())
+    }
+}
+
+/// Wall-clock backstop per scenario, far above what any planned scenario needs on an idle or a
+/// loaded machine and far below the hang watchdog.
+pub const BACKSTOP_S: u64 = 25;
+
 impl Outcome {
     pub fn clean(d: &Digest, stats: Stats) -> Outcome {
         Outcome {
             violations: vec![],
-            digest: d.finish(),
+            digest: digest_of(d, &stats),
             stats,
             trace: None,
         }
@@ -416,7 +454,7 @@ impl Outcome {
     pub fn of(d: &Digest, stats: Stats, violations: Vec<Violation>) -> Outcome {
         Outcome {
             violations,
-            digest: d.finish(),
+            digest: digest_of(d, &stats),
             stats,
             trace: None,
         }
